@@ -1856,7 +1856,12 @@ func derivesFromChild(v ssa.Value, d int) bool {
 	case *ssa.TypeAssert:
 		return derivesFromChild(y.X, d+1)
 	case *ssa.Extract:
+		if call, ok := y.Tuple.(*ssa.Call); ok {
+			return callDerivesFromChild(call, y.Index, d)
+		}
 		return derivesFromChild(y.Tuple, d+1)
+	case *ssa.Call:
+		return callDerivesFromChild(y, 0, d)
 	case *ssa.Next:
 		return true // range over children
 	case *ssa.Phi:
@@ -2010,4 +2015,24 @@ func readHelperCount(g *ssa.Function, bp *ssa.Parameter) bool {
 		}
 	}
 	return len(rvs) > 0
+}
+
+// callDerivesFromChild: result #idx of a helper is, on every return that yields a value, a child taken from one
+// of its arguments (a.Data, group.AVP, …).
+func callDerivesFromChild(call *ssa.Call, idx, d int) bool {
+	g := flow.StaticCallee(call)
+	if g == nil || g.Blocks == nil || d > 4 {
+		return false
+	}
+	n := 0
+	for _, rv := range flow.ReturnValues(g, idx) {
+		if flow.IsNilConst(rv) {
+			continue
+		}
+		n++
+		if !derivesFromChild(rv, d+1) {
+			return false
+		}
+	}
+	return n > 0
 }
